@@ -48,6 +48,10 @@ for (y, mo, d) in [(1900, 1, 1), (1999, 12, 31), (2000, 2, 28), (2000, 2, 29), (
         t = dt.datetime(y, mo, d) + tod
         if t >= LO:
             STARTS.append(t)
+# wall-clock times that do not exist in one of the C18 zones (spring-forward gaps): naive values must be taken as they are
+for (y, mo, d, hh, mi) in [(2024, 3, 10, 2, 30), (2024, 3, 10, 2, 0), (2024, 10, 6, 2, 15), (2024, 9, 29, 3, 0), (2024, 9, 29, 2, 45),
+                           (2023, 3, 12, 2, 59), (2024, 11, 3, 1, 30), (2024, 4, 7, 1, 45)]:
+    STARTS.append(dt.datetime(y, mo, d, hh, mi))
 MS_CHOICES = [2, 3, 5, 10, 20, 50]
 
 
